@@ -43,8 +43,8 @@ def run_native(extra, pid, tier, repo, scratch):
     t0 = time.time()
     p = subprocess.run(cmd, shell=True, cwd=crate, capture_output=True, text=True, env=env, timeout=3000)
     out = p.stdout + p.stderr
-    cases = sum(int(x) for x in re.findall(r'^CASES (\d+)', out, re.M))
-    distinct = sum(int(x) for x in re.findall(r'^DISTINCT (\d+)', out, re.M))
+    cases = sum(int(x) for x in re.findall(r'CASES (\d+)', out))
+    distinct = sum(int(x) for x in re.findall(r'DISTINCT (\d+)', out))
     fails = re.findall(r'^FAIL: (C\d\d) (.*)$', out, re.M)
     res = dict(engine='native', cmds=[cmd], obligations=0, discharged=0, violations=[], inconclusive=[],
                samples=[], trusted=[], summary=dict(cases=cases, distinct=distinct, wall_s=round(time.time() - t0, 1)))
